@@ -158,6 +158,7 @@ pub open spec fn completion_frame(pre: ProtocolState, post: ProtocolState) -> bo
     &&& post.protocol_version == pre.protocol_version
     &&& post.has_connected_successfully == pre.has_connected_successfully
     &&& post.operation_ack_timeouts == pre.operation_ack_timeouts
+    &&& post.current_operation_ack_timeout_elapsed == pre.current_operation_ack_timeout_elapsed
     &&& post.inbound_alias_resolver == pre.inbound_alias_resolver
 }
 
@@ -944,8 +945,8 @@ pub open spec fn ack_timeouts_in_range(s: ProtocolState, now: Instant) -> bool {
         (op_ack_timeout(s.operations@[k]) matches Some(t) ==> now.nanos + t.nanos <= INSTANT_MAX_NANOS())
 }
 
-pub open spec fn no_due_timeout_for_current(s: ProtocolState) -> bool {
-    forall|x: Reverse<OperationTimeoutRecord>| (#[trigger] hh(s.operation_ack_timeouts, x) && x.0.timeout.nanos <= s.current_time.nanos) ==> s.current_operation != Some(x.0.id)
+pub open spec fn due_timeout_for_current(s: ProtocolState) -> bool {
+    exists|x: Reverse<OperationTimeoutRecord>| #[trigger] hh(s.operation_ack_timeouts, x) && x.0.timeout.nanos <= s.current_time.nanos && s.current_operation == Some(x.0.id)
 }
 
 pub open spec fn queue_measure(s: ProtocolState) -> int {
@@ -998,13 +999,18 @@ impl ProtocolState {
             // C07: once a DISCONNECT has been written nothing further is sent
             &&& post.state == (if *op.packet is Disconnect { ProtocolStateType::PendingDisconnect } else { pre.state })
             // C18: the ack timeout starts now (fully written), never while queued
-            &&& (op_ack_timeout(op) matches Some(t) ==> heap_view(post.operation_ack_timeouts) == heap_view(pre.operation_ack_timeouts).insert(
-                    Reverse(OperationTimeoutRecord { id, timeout: Instant { nanos: (now.nanos + t.nanos) as u128 } })))
-            &&& (op_ack_timeout(op) is None ==> heap_view(post.operation_ack_timeouts) == heap_view(pre.operation_ack_timeouts))
+            &&& (!pre.current_operation_ack_timeout_elapsed ==> (op_ack_timeout(op) matches Some(t) ==> heap_view(post.operation_ack_timeouts) == heap_view(pre.operation_ack_timeouts).insert(
+                    Reverse(OperationTimeoutRecord { id, timeout: Instant { nanos: (now.nanos + t.nanos) as u128 } }))))
+            &&& ((!pre.current_operation_ack_timeout_elapsed && op_ack_timeout(op) is None) ==> heap_view(post.operation_ack_timeouts) == heap_view(pre.operation_ack_timeouts))
+            // ... unless its earlier deadline (a QoS 2 publish whose PUBREL was being written) passed during the write: due at once
+            &&& (pre.current_operation_ack_timeout_elapsed ==> heap_view(post.operation_ack_timeouts) == heap_view(pre.operation_ack_timeouts).insert(
+                    Reverse(OperationTimeoutRecord { id, timeout: now })))
+            &&& !post.current_operation_ack_timeout_elapsed
             // frame
             &&& post == (ProtocolState { operations: post.operations, pending_non_publish_operations: post.pending_non_publish_operations,
                     pending_publish_operations: post.pending_publish_operations, pending_write_completion_operations: post.pending_write_completion_operations,
-                    state: post.state, operation_ack_timeouts: post.operation_ack_timeouts, current_operation: post.current_operation, ..pre })
+                    state: post.state, operation_ack_timeouts: post.operation_ack_timeouts, current_operation: post.current_operation,
+                    current_operation_ack_timeout_elapsed: false, ..pre })
         }),
 //@@at before "let id = operation.id;"
         proof { assert(operation.id == old(self).current_operation->Some_0); }
@@ -1026,11 +1032,14 @@ impl ProtocolState {
         forall|k: u64| final(self).operations@.contains_key(k) ==> old(self).operations@.contains_key(k) && final(self).operations@[k] == old(self).operations@[k],
         // "at the first service at or after": no due record survives
         forall|y: Reverse<OperationTimeoutRecord>| #[trigger] hh(final(self).operation_ack_timeouts, y) ==> y.0.timeout.nanos > old(self).current_time.nanos && hh(old(self).operation_ack_timeouts, y),
-        // a due record always fails its operation if it is still tracked
-        forall|x: Reverse<OperationTimeoutRecord>| (#[trigger] hh(old(self).operation_ack_timeouts, x) && x.0.timeout.nanos <= old(self).current_time.nanos) ==> !final(self).operations@.contains_key(x.0.id),
+        // a due record always fails its operation if it is still tracked - except the operation whose follow-up packet is half
+        // written: the encoder still needs it (C11), so its timeout is remembered and applied when the write has finished
+        forall|x: Reverse<OperationTimeoutRecord>| (#[trigger] hh(old(self).operation_ack_timeouts, x) && x.0.timeout.nanos <= old(self).current_time.nanos
+            && old(self).current_operation != Some(x.0.id)) ==> !final(self).operations@.contains_key(x.0.id),
+        final(self).current_operation_ack_timeout_elapsed <==> (old(self).current_operation_ack_timeout_elapsed || due_timeout_for_current(*old(self))),
         final(self).state == old(self).state || (old(self).state == ProtocolStateType::PendingDisconnect && final(self).state == ProtocolStateType::Halted),
-        // F-TIMEOUT-CURRENT: the half-written operation is not protected from its own timeout
-        old(self).cur_ok() && no_due_timeout_for_current(*old(self)) ==> final(self).cur_ok(),
+        // C11 (was finding F-TIMEOUT-CURRENT): the half-written operation is never pulled out from under the encoder
+        old(self).cur_ok() ==> final(self).cur_ok(),
 //@@loop 0
         invariant
             self.wf(),
@@ -1040,23 +1049,25 @@ impl ProtocolState {
                 exists|x: Reverse<OperationTimeoutRecord>| hh(old(self).operation_ack_timeouts, x) && x.0.id == k && x.0.timeout.nanos <= old(self).current_time.nanos,
             forall|k: u64| self.operations@.contains_key(k) ==> old(self).operations@.contains_key(k) && self.operations@[k] == old(self).operations@[k],
             forall|y: Reverse<OperationTimeoutRecord>| #[trigger] hh(self.operation_ack_timeouts, y) ==> hh(old(self).operation_ack_timeouts, y),
-            forall|x: Reverse<OperationTimeoutRecord>| (#[trigger] hh(old(self).operation_ack_timeouts, x) && x.0.timeout.nanos <= old(self).current_time.nanos) ==> (hh(self.operation_ack_timeouts, x) || !self.operations@.contains_key(x.0.id)),
-            old(self).cur_ok() && no_due_timeout_for_current(*old(self)) ==> self.cur_ok(),
+            forall|x: Reverse<OperationTimeoutRecord>| (#[trigger] hh(old(self).operation_ack_timeouts, x) && x.0.timeout.nanos <= old(self).current_time.nanos
+                && old(self).current_operation != Some(x.0.id)) ==> (hh(self.operation_ack_timeouts, x) || !self.operations@.contains_key(x.0.id)),
+            // the flag is raised exactly by a due record of the current operation that has been taken off the heap
+            self.current_operation_ack_timeout_elapsed ==> (old(self).current_operation_ack_timeout_elapsed || due_timeout_for_current(*old(self))),
+            old(self).current_operation_ack_timeout_elapsed ==> self.current_operation_ack_timeout_elapsed,
+            forall|x: Reverse<OperationTimeoutRecord>| (#[trigger] hh(old(self).operation_ack_timeouts, x) && x.0.timeout.nanos <= old(self).current_time.nanos
+                && old(self).current_operation == Some(x.0.id)) ==> (hh(self.operation_ack_timeouts, x) || self.current_operation_ack_timeout_elapsed),
+            old(self).cur_ok() ==> self.cur_ok(),
         ensures
             forall|y: Reverse<OperationTimeoutRecord>| #[trigger] hh(self.operation_ack_timeouts, y) ==> y.0.timeout.nanos > self.current_time.nanos,
         decreases heap_view(self.operation_ack_timeouts).len(),
+//@@at before "self.operation_ack_timeouts.pop();"
+            let ghost pre_pop = *self;
 //@@at after "self.operation_ack_timeouts.pop();"
             proof {
                 let top = heap_top(pre_pop.operation_ack_timeouts)->Some_0;
                 assert(heap_view(self.operation_ack_timeouts) == heap_view(pre_pop.operation_ack_timeouts).remove(top));
                 assert forall|y: Reverse<OperationTimeoutRecord>| #[trigger] hh(self.operation_ack_timeouts, y) implies hh(pre_pop.operation_ack_timeouts, y) by {}
                 assert forall|y: Reverse<OperationTimeoutRecord>| y != top && #[trigger] hh(pre_pop.operation_ack_timeouts, y) implies hh(self.operation_ack_timeouts, y) by {}
-            }
-//@@at before "self.operation_ack_timeouts.pop();"
-            let ghost pre_pop = *self;
-//@@at after "result = fold_mqtt_result(result, self.complete_operation_as_failure(id, GneissError::new_ack_timeout()));"
-            proof {
-                let top = heap_top(pre_pop.operation_ack_timeouts)->Some_0;
                 assert(hh(pre_pop.operation_ack_timeouts, top));
                 assert(hh(old(self).operation_ack_timeouts, top) && top.0.id == id && top.0.timeout.nanos <= old(self).current_time.nanos);
             }
@@ -1199,10 +1210,8 @@ impl ProtocolState {
         // keep-alive failure is reported before anything is written
         (old(self).ping_timeout_timepoint matches Some(pt) && old(context).current_time.nanos >= pt.nanos) ==> r is Err && final(context).to_socket@ == old(context).to_socket@,
         final(self).state == ProtocolStateType::Connected || final(self).state == ProtocolStateType::PendingDisconnect || final(self).state == ProtocolStateType::Halted,
-        // the engine stays serviceable: the half-written operation (if any) is still tracked  [F-TIMEOUT-CURRENT]
+        // the engine stays serviceable: the half-written operation (if any) is still tracked  (finding F-TIMEOUT-CURRENT, fixed)
         r is Ok ==> final(self).cur_ok(),
-//@@finding F-TIMEOUT-CURRENT before "self.process_ack_timeouts()?;"
-        proof { assume(no_due_timeout_for_current(*self)); }
 //@end
 
 //@fn gneiss-mqtt/src/protocol.rs ProtocolState::service props=C11,C07,C08
@@ -1232,6 +1241,7 @@ pub open spec fn closing_frame(pre: ProtocolState, post: ProtocolState) -> bool 
     &&& post.pending_write_completion_operations@ == pre.pending_write_completion_operations@
     &&& post.connack_timeout_timepoint == pre.connack_timeout_timepoint && post.next_ping_timepoint == pre.next_ping_timepoint
     &&& post.ping_timeout_timepoint == pre.ping_timeout_timepoint && post.operation_ack_timeouts == pre.operation_ack_timeouts
+    &&& post.current_operation_ack_timeout_elapsed == pre.current_operation_ack_timeout_elapsed
     &&& (pre.state == ProtocolStateType::Disconnected ==> post.slow_start_ack_count == pre.slow_start_ack_count)
 }
 
@@ -1987,6 +1997,8 @@ pub open spec fn offline(s: ProtocolState) -> bool {
     &&& s.connack_timeout_timepoint is None && s.next_ping_timepoint is None && s.ping_timeout_timepoint is None
     &&& heap_view(s.operation_ack_timeouts) == Multiset::<Reverse<OperationTimeoutRecord>>::empty()
     &&& s.current_operation is None
+    // no ack timeout of an earlier connection is remembered (C18: timeouts never span connections)
+    &&& !s.current_operation_ack_timeout_elapsed
 }
 
 // closing the half-written operation removes at most that operation's own entries from the in-flight tables
